@@ -41,6 +41,17 @@ covered={
 }
 over={
  ("x/multistaking/keeper.Keeper.autocompoundRewards","sub"):"autoCompoundRewards is a sub-multiset of rewards by construction; runs on a cache context whose errors are discarded",
+ ("x/recovery/keeper.Keeper.IncreaseRecoveryTokenUnderlying","sub"):"guarded by TRUNCATION in calcPortion: every allocation is floor(amount * balance / supply) per denom and the registered holders' balances sum to at most the supply, so the allocations sum to at most amount; exercised in real BeginBlocks by the recovery-rewards histories (1..3 holders owning all / part of the supply, odd fees in several denoms)",
+ ("x/recovery/keeper.calcPortion","quo"):"divides by the RR supply: calcPortion is only called for registered holders, UnregisterNotEnoughAmountHolder has just removed every holder below 1000000 units, so a remaining holder implies supply >= 1000000",
+ ("x/recovery/keeper.calcPortion","newcoin"):"non-negative: product of non-negative amounts divided by a positive supply, truncated",
+ ("x/multistaking/types.GetPoolCoins","sub"):"DeliverTx paths only (Undelegate / redeem): recovered by baseapp",
+ ("x/multistaking/types.GetPoolCoins","newcoin"):"DeliverTx paths only: recovered by baseapp",
+ ("x/layer2/keeper.SubBridgeBalance","sub"):"DeliverTx paths only (bridge transfers): recovered by baseapp",
+ ("x/layer2/keeper.SubBridgeBalance","index"):"DeliverTx paths only (bridge transfers): recovered by baseapp",
+ ("x/layer2/keeper.AddBridgeBalance","index"):"DeliverTx paths only (bridge transfers): recovered by baseapp",
+ ("x/gov/types.ProposalRouter.VotePeriodDynamicProposal","panic"):"DeliverTx path (CreateAndSaveProposalWithContent at submission); Jail raises only SlashValidator proposals, whose type is routed",
+ ("x/gov/types.ProposalRouter.EnactmentPeriodDynamicProposal","panic"):"DeliverTx path (submission); see VotePeriodDynamicProposal",
+ ("x/staking/types.Validator.GetConsPubKey","panic"):"unpacks the validator's own stored public key Any (cached value set by UnpackInterfaces when the record is read)",
  ("x/gov.processEnactmentProposal","panic"):"unreachable: enactment queue entries are written with the proposal; proposals are never deleted",
  ("x/gov/types.ProposalRouter.AllowedAddressesDynamicProposal","panic"):"unreachable: same content type already routed at submission (state-independent, input_only_panics_filtered)",
  ("x/gov/types.ProposalRouter.QuorumDynamicProposal","panic"):"unreachable: same content type already routed at submission (state-independent)",
